@@ -158,7 +158,9 @@ def check_body(ctx: Ctx, case) -> None:
     lines = [_line(*f) for f in fields]
     has_res = any(f[0] == "Resolution" for f in fields)
     res_val = next((int(f[1]) for f in fields if f[0] == "Resolution"), None)
-    via_chart = bool(case.get("via_chart")) and has_res and 0 < res_val <= 10 ** 6
+    # (a body without Resolution is also offered through Chart.from_file / from_filepath: the documented error
+    # is the same whichever public entry point reads the [Song] section)
+    via_chart = bool(case.get("via_chart")) and (not has_res or 0 < res_val <= 10 ** 6)
     if via_chart and len(lines) % 2 == 0:
         via_chart = "path"
     rc = {"lines": lines, "via_chart": via_chart, "sections": case.get("sections") or []}
